@@ -430,7 +430,7 @@ impl ViolationInfo {
     pub fn class(&self) -> String {
         match self.invariant.as_str() {
             // "something that must not change did change / an equal context gives another result"
-            "I2-root" | "I2-scope" | "I2-private-root" | "I2-twin" | "I4" | "I4-bound" | "I4-unreadable" | "I5a-reexec" | "I5a-twin" | "I5a-fresh-thread" | "I3-references" | "I3-reexec" => "purity".to_string(),
+            "I2-root" | "I2-scope" | "I2-private-root" | "I2-twin" | "I4" | "I4-bound" | "I4-unreadable" | "I5a-reexec" | "I5a-twin" | "I5a-fresh-thread" | "I3-references" | "I3-reexec" | "I3-fresh-program" => "purity".to_string(),
             "I1" | "I2-scope-vs-alone" => "alone-equivalence".to_string(),
             other => other.to_string(),
         }
